@@ -170,7 +170,13 @@ def _scan_order(ctx, ck, fn, loop, rules, infos, pats) -> None:
             continue
         env = Env(module)
         for n in reg_names:
-            env.vars[n] = registry
+            it.globals_override[(module.name, n)] = registry
+        scope_fn = enclosing(fors[0], (ast.FunctionDef,)) or fn
+        if scope_fn.args.args:
+            try:
+                env.vars[scope_fn.args.args[0].arg] = it.construct(alg)
+            except (Undecided, Raised):
+                pass
         env.vars['left'] = Obj(L, {})
         env.vars['right'] = Obj(Rc, {})
         try:
